@@ -17,6 +17,7 @@ From XV Require Corr.RunC01.
 From XV Require Corr.RunC10.
 From XV Require Corr.RunC13.
 From XV Require Corr.RunC07.
+From XV Require Corr.RunC09.
 (* REQUIRE-INSERTION-POINT: add "From XV Require Corr.RunCxx." above this line *)
 Open Scope Z_scope.
 
@@ -24,7 +25,8 @@ Definition dispatch (prop : Z) : sx -> sx :=
   if prop =? 17 then RunC17.run_C17 else
   if prop =? 15 then RunC15.run_C15 else
   if prop =? 19 then RunC19.run_C19 else
-  if (prop =? 5) || (prop =? 9) || (prop =? 12) then RunRecv.run_recv else
+  if (prop =? 5) || (prop =? 12) then RunRecv.run_recv else
+  if prop =? 9 then RunC09.run_C09 else
   if prop =? 20 then RunC20.run_C20 else
   if prop =? 6 then RunC06.run_C06 else
   if prop =? 16 then RunC16.run_C16 else
